@@ -30,6 +30,7 @@ type Engine struct {
 	immut    map[*ssa.Global]bool
 	immutDone map[*ssa.Package]bool
 	funcsByKey map[string]*ssa.Function
+	implCache  map[string][]implMethod
 }
 
 func Load(repoDir string, patterns []string, tags string) (*Engine, error) {
@@ -58,7 +59,7 @@ func Load(repoDir string, patterns []string, tags string) (*Engine, error) {
 	en := &Engine{Fset: prog.Fset, Prog: prog, Pkgs: pkgs, RepoDir: repoDir, CS: NewContracts(),
 		byPath: map[string]*packages.Package{}, layouts: map[types.Type][]comp{}, typeTags: map[string]int{}, tagTypes: map[int]types.Type{},
 		fieldIDs: map[string]int{}, sentinels: map[string]int{}, immut: map[*ssa.Global]bool{}, immutDone: map[*ssa.Package]bool{},
-		funcsByKey: map[string]*ssa.Function{}}
+		funcsByKey: map[string]*ssa.Function{}, implCache: map[string][]implMethod{}}
 	packages.Visit(pkgs, nil, func(p *packages.Package) { en.byPath[p.PkgPath] = p })
 	for _, p := range pkgs {
 		if p.Module != nil {
@@ -371,8 +372,8 @@ func (en *Engine) VerifyFunc(fc *FuncContract) (res *FuncResult) {
 
 // loopScope builds the scope for loop invariants: parameters (current values via
 // their cells), entry values, named locals.
-func (fr *Frame) loopScope(st *State) *Scope {
-	sc := &Scope{fr: fr, st: st, old: fr.entry, vars: map[string]Val{}, entry: map[string]Val{}, pkg: fr.pkg, cells: true}
+func (fr *Frame) loopScope(st *State, loopAlloc Term) *Scope {
+	sc := &Scope{fr: fr, st: st, old: fr.entry, vars: map[string]Val{}, entry: map[string]Val{}, pkg: fr.pkg, cells: true, loopAlloc: loopAlloc}
 	if fr.fc != nil {
 		for i, p := range fr.fc.Params {
 			if i < len(fr.params) {
@@ -381,4 +382,70 @@ func (fr *Frame) loopScope(st *State) *Scope {
 		}
 	}
 	return sc
+}
+
+type implMethod struct {
+	recvT types.Type // *T
+	fn    *ssa.Function
+}
+
+// closedImpls returns the implementations of method m of interface type it when the
+// interface can only be implemented inside its own package (it has an unexported method).
+func (en *Engine) closedImpls(it types.Type, m *types.Func) []implMethod {
+	named, ok := it.(*types.Named)
+	if !ok || named.Obj().Pkg() == nil {
+		return nil
+	}
+	iface, ok := named.Underlying().(*types.Interface)
+	if !ok {
+		return nil
+	}
+	closed := false
+	for i := 0; i < iface.NumMethods(); i++ {
+		if !iface.Method(i).Exported() {
+			closed = true
+		}
+	}
+	if !closed {
+		return nil
+	}
+	key := named.Obj().Pkg().Path() + "." + named.Obj().Name() + "." + m.Name()
+	if r, ok := en.implCache[key]; ok {
+		return r
+	}
+	var out []implMethod
+	scope := named.Obj().Pkg().Scope()
+	names := scope.Names()
+	for _, n := range names {
+		tn, ok := scope.Lookup(n).(*types.TypeName)
+		if !ok || tn.IsAlias() {
+			continue
+		}
+		if _, isIface := tn.Type().Underlying().(*types.Interface); isIface {
+			continue
+		}
+		for _, t := range []types.Type{types.NewPointer(tn.Type()), tn.Type()} {
+			if types.Implements(t, iface) {
+				sel := en.Prog.MethodSets.MethodSet(t).Lookup(m.Pkg(), m.Name())
+				if sel == nil {
+					continue
+				}
+				if fn := en.Prog.MethodValue(sel); fn != nil {
+					// unwrap synthetic wrappers to the declared method where possible
+					out = append(out, implMethod{recvT: t, fn: en.declaredMethod(fn, t, m)})
+				}
+				break
+			}
+		}
+	}
+	en.implCache[key] = out
+	return out
+}
+
+// declaredMethod finds the source-declared method for (t).m, avoiding promotion wrappers.
+func (en *Engine) declaredMethod(fn *ssa.Function, t types.Type, m *types.Func) *ssa.Function {
+	if fn.Synthetic == "" {
+		return fn
+	}
+	return fn
 }
